@@ -36,7 +36,9 @@ SlowReqs(id) ==
 DownloadReqs ==
   {[method |-> b.method, key |-> b.key, kplace |-> b.kplace, cred |-> b.cred, cplace |-> b.cplace,
     size |-> "small", newacc |-> FALSE, shape |-> sh, resolves |-> ShapeResolves(sh), target |-> tg, asatt |-> aa]
-     : b \in ReqBase, sh \in Shapes, tg \in 1..MaxUp, aa \in AsattVals}
+     \* (targets: ids that exist, existed or never existed; written with Ids(w) so that TLC does not expand the whole
+     \*  product as a constant at start-up, which the history generator never needs)
+     : b \in ReqBase, sh \in Shapes, tg \in Ids(w) \cup (1..MaxUp), aa \in AsattVals}
 
 \* attachment lists: ids that exist, existed, or never existed; possibly a first URL that resolves to nothing
 Ref(i, ok) == [id |-> i, resolves |-> ok]
@@ -144,6 +146,11 @@ C_DownloadServes(r, resp) ==
   => resp.status = 200 /\ resp.served = w.up[r.target].bytes
 \* the type kept for an accepted upload is the one detected from its content
 C_DetectedType(r, res) == \A id \in Ids(res.w) \ Ids(w) : res.w.up[id].mime = KindMime(r.kind)
+\* forced attachment = active(mime) \/ asatt-true: active content is saved whatever asatt says, anything else
+\* is saved exactly when the request asks for it
+C_AttachmentIffActiveOrAsked(r, resp) ==
+  resp.served # None => /\ (MimeActive(resp.mime) => resp.disp)
+                        /\ (~MimeActive(resp.mime) => (resp.disp = AsattTrue(r.asatt)))
 C_UrlNamesOnlyCompletedUpload(r, resp) ==
   resp.served # None => \E id \in Ids(w) : w.up[id].st = "finished" /\ id = r.target /\ resp.served = w.up[id].bytes
 
@@ -190,6 +197,7 @@ RefusedNoEffect == \A x \in UpOuts : C_RefusedNoEffect(x.r, x.res)
 DetectedType == \A x \in UpOuts : C_DetectedType(x.r, x.res)
 DownloadExact == \A x \in DownOuts : C_DownloadExact(x.r, x.resp)
 DownloadServes == \A x \in DownOuts : C_DownloadServes(x.r, x.resp)
+AttachmentIffActiveOrAsked == \A x \in DownOuts : C_AttachmentIffActiveOrAsked(x.r, x.resp)
 UrlNamesOnlyCompletedUpload == \A x \in DownOuts : C_UrlNamesOnlyCompletedUpload(x.r, x.resp)
 LinkedNeverCollected == \A x \in LifeOuts : C_LinkedNeverCollected(x.o, x.e)
 ListedAreLinked == \A x \in LifeOuts : C_ListedAreLinked(x.o, x.e)
@@ -207,6 +215,7 @@ ReqClauses ==
        /\ Named("GateBeforeEffect", x, C_GateDownload(x.r, x.resp))
        /\ Named("DownloadExact", x, C_DownloadExact(x.r, x.resp))
        /\ Named("DownloadServes", x, C_DownloadServes(x.r, x.resp))
+       /\ Named("AttachmentIffActiveOrAsked", x, C_AttachmentIffActiveOrAsked(x.r, x.resp))
        /\ Named("UrlNamesOnlyCompletedUpload", x, C_UrlNamesOnlyCompletedUpload(x.r, x.resp))
   /\ Named("StepOpsSuffice", nup, nup < MaxUp => {x.res.w : x \in UpOuts} \subseteq {Eff(o).w : o \in StepUploadOps} \cup {w})
 LifeClauses ==
